@@ -283,8 +283,8 @@ pub fn plan(property: &str, tier: Tier) -> Option<Plan> {
             "one case = one seeded execution of a 4-9 validator cluster of real nodes (stakes, Byzantine set <20% stake, crash set, disseminator, loss/dup/delay/partition/stall schedule, Byzantine voter/leader strategy all drawn from the seed); non-trivial = at least two correct nodes finalized a block and at least one fault or Byzantine action fired; distinct = distinct fingerprint of the abstracted per-node history (sequence of votes cast and blocks finalized/skipped per node)",
         ),
         "C02" => (
-            if q { 760 } else { 24_000 },
-            if q { 360 } else { 1800 },
+            if q { 600 } else { 24_000 },
+            if q { 480 } else { 1800 },
             "exploration",
             "two kinds of case; (solo-node-honest-environment, 3 of 4 runs) one real node among validators that all follow the protocol (one block per slot extending the chain, delivered within 100 ms of its nominal time, every other validator votes notar and final within the delay bound, some of them slow so that blocks overtake their parents' certificates): the node must notarize and vote to finalize every block and never cast a skip or fallback vote; (cluster, 1 of 4 runs) one case = one seeded cluster execution with a drawn stabilisation time T_s (before: arbitrary faults; after: no loss, per-message delay <= 100 ms or anywhere up to 150/200/250 ms = DELTA, <20% Byzantine incl. leaders that equivocate or hand the next leader a block nobody else gets, <20% further crashed); non-trivial = at least one leader window qualified for the bounded-liveness oracle and (except in the fault-free variant) a pre-T_s fault fired; distinct = distinct per-node history fingerprint",
         ),
